@@ -312,6 +312,7 @@ pub fn property() -> Property {
         id: "C15",
         rule: "Well-formed source files: grammar-generated programs rendered with random spacing/case, every line numbered, non-empty and tokenizable, lines in shuffled order, earlier duplicate definitions of some line numbers (the later one wins), LF or CRLF. in-process: SourceFileAnalyzer::analyze(text).into_interpreter() versus an interpreter into which the same lines are typed: identical LIST, and identical RUN event sequence (incl. trace and warning records) and outcome under the same seed, replies and option flags. cli-processes: for all 8 combinations of --warnings / --tracing / --skip-check, `abasic [opts] FILE < replies` versus `(lines; RUN; replies) | abasic [opts]` (private HOME, NO_COLOR=1; exactly the replies the program consumes; programs that the static check rejects only with --skip-check; programs without RND): stdout minus the two banner lines, stderr minus the `Warning on line N of` static-analysis lines, and the exit status must be identical. Non-trivial: a program of >= 3 lines that prints and shows runtime warnings or trace records under the chosen options; distinct by (file text, options).",
         assumptions: vec!["the CLI is driven with piped stdin (rustyline's non-terminal path)", "a child exceeding 60 s is counted as inconclusive, never as a violation"],
+        fuzz: None,
         families,
         prelude: None,
         epilogue: None,
